@@ -68,6 +68,7 @@ PROPS = {
         "level_note": "Trusted: as C08. Dollar bound not yet proved (same invariant shape).",
     },
     "C10": {
+        "race": True,
         "streams": [("pipeline", 600, 6000)],
         "level_text": "Proof: the directory walk as a function of the tree (complete for the behaviour extracted from walkDir today; the old return-after-first-subdirectory behaviour has a counterexample), and the MergeDir goroutine pipeline as a labelled transition system with parameters read from the source (are the two sends inside a select with Done, errgroup.WithContext): invariant, delivery (merger multiset = accepted parseable files), progress/no deadlock for today's parameters, termination measure, error iff an accepted file is unparseable, schedule independence given order-independent merging (C08); the old parameters have a reachable deadlock. Data races and the Go memory model are not exhibited (oracle under delays; -race build).",
         "level_note": "Trusted: channel/context/errgroup/WaitGroup contracts as modelled; gofacts Pipeline facts; the walk is tied by the pipeline correspondence stream (real MergeDir over fstest.MapFS with a recording acceptor vs the model).",
@@ -103,11 +104,13 @@ PROPS = {
         "level_note": "Trusted: HTTP parsing, mux, go-kit plumbing, JSON encoding not modelled; files have value semantics in the model (aliasing between stored files is outside it).",
     },
     "C18": {
+        "race": True,
         "streams": [("repo", 4000, 60000)],
         "level_text": "Proof: repository methods as micro-steps under an RW lock, any number of clients, every interleaving: lock invariant, no two conflicting shared accesses enabled (under the lock discipline read from the source: which methods take Lock/RLock, deferred unlock, nothing before the lock), forward simulation to the atomic map, linearizability of complete runs with real-time order; the four sequential clauses on the spec; counterexample when StoreFile takes only the read lock. Go memory model / RWMutex internals not exhibited (porcupine + -race in the oracle).",
         "level_note": "Trusted: sync.RWMutex contract, sequentially consistent memory; sequential semantics tied by the repo correspondence stream (real repository vs spec on random call sequences).",
     },
     "C19": {
+        "race": True,
         "streams": [],
         "level_text": "Partial proof: the sync.Pool buffer discipline as an LTS over N goroutines (get, write*, String copy, reset, put; nested gets): ownership invariant and noninterference - every goroutine's outputs equal its sequential outputs for every interleaving; the discipline (every getBuffer paired with defer saveBuffer, no escape) is a regenerated fact over all 49 users; counterexample when a buffer is put back while still referenced; operations on distinct repository keys commute. Data races as such, shared dictionaries, Prometheus: not exhibited (oracle: sequential vs concurrent byte-for-byte, -race).",
         "level_note": "Trusted: sync.Pool and bytes.Buffer contracts; translation of the users into op programs.",
